@@ -17,6 +17,11 @@ RULE = ("explicit-state BFS over the union alphabet of C03/C04/C05/C09 operation
         "canonical state or raised; the oracle compares full observations around each raising call")
 
 BAD_CARD = {"tuple": [2, 1]}
+# three sibling Properties, the middle one depending on the first: objects that refer to one another by name, so that a
+# refused rename / move / removal has other objects it could half-update
+START_DEPENDENT = OPS.START_BUILT + [["new_property", "d", OPS.S0, {"dependency": "p", "dependency_value": "1"}],
+                                     ["append", OPS.S0, OPS.P2],
+                                     ["new_section", "l", OPS.S1, {"definition": "own", "reference": "own ref"}]]
 MISSING_URL = "file:///nonexistent-odml-verif/none.xml#/a"
 
 
@@ -110,7 +115,7 @@ def check(tier):
     ])
     plan = PLANS[tier]
     run.bounds = {"depth": len(plan), "alphabet_per_level": [c["level"] for c in plan]}
-    hist.bfs(run, "checks.c06", [OPS.START_DETACHED, OPS.START_BUILT], plan)
+    hist.bfs(run, "checks.c06", [OPS.START_DETACHED, OPS.START_BUILT, START_DEPENDENT], plan)
     n_raise = sum(v for k, v in run.outcomes.items() if not k.endswith(":ok"))
     run.extra["raising_transitions_judged"] = n_raise
     return run.finish(reproduce=lambda f: replay(f))
